@@ -843,6 +843,37 @@ def s1_skill_laws(F, r):
         r.fail("SkillsConstraint::evaluate: checks", f"only {sorted(seen)} of the three skill checks are consulted", F.loc(m))
 
 
+def _toks_deep(fn, op, seen=None, depth=0):
+    """like _toks, but also keeps the field names projected out of CALL RESULTS on the way (`next().0.pickup`): names of variables, fields and callees in the
+    whole backward slice of the operand"""
+    if seen is None:
+        seen = set()
+    out = set()
+    if depth > 14:
+        return out
+    for k, v, p in mir.trace(fn, op):
+        out |= {str(x) for x in p}
+        if k in ("arg", "local"):
+            nm = fn["names"].get(str(v))
+            if nm:
+                out.add(nm)
+        elif k == "call":
+            if ("c", v) in seen:
+                continue
+            seen.add(("c", v))
+            t = fn["bbs"][v]["t"]
+            out.add((t["callee"] or "?").split("::")[-1])
+            for a in t["args"]:
+                out |= _toks_deep(fn, a, seen, depth + 1)
+        elif k in ("agg", "bin", "other"):
+            if ("s",) + tuple(v) in seen:
+                continue
+            seen.add(("s",) + tuple(v))
+            for a in fn["bbs"][v[0]]["s"][v[1]]["r"].get("o", []):
+                out |= _toks_deep(fn, a, seen, depth + 1)
+    return out
+
+
 def _toks(fn, op):
     lv, calls = mir.deep_leaves(fn, op)
     t = set()
